@@ -1,5 +1,6 @@
 from datetime import datetime
 from .n0struct_utils import isnumber
+from .n0struct_n0list_n0dict import n0dict, n0list
 # ******************************************************************************
 # ******************************************************************************
 strip_ns = lambda key: key.split(':', 1)[1] if ':' in key else key
